@@ -24,46 +24,80 @@ func equalArms(c *Ctx, rule string, totality bool) {
 	c.Rule(rule, "for every arm X of value.Equal's switch on a's oneof: b's oneof is obtained through the nil-safe getter and comma-ok asserted to the same X; a mismatch returns false; true is returned only through == comparisons of the same fields of both sides (leaf-lists: different lengths => false on every path, equal lengths => element-wise recursive Equal on the same index, a false element => false); values of unhandled kinds => false")
 	a, b := ssa.Value(param(eq, 0)), ssa.Value(param(eq, 1))
 	getVal := "(*proto/gnmi.TypedValue).GetValue"
-	sideOf := func(v ssa.Value) string {
-		switch x := v.(type) {
-		case *ssa.Call:
-			if calleeName(&x.Call) == getVal {
-				if x.Call.Args[0] == a {
-					return "a.getter"
-				}
-				if x.Call.Args[0] == b {
-					return "b.getter"
-				}
-			}
-		case *ssa.UnOp:
-			if x.Op == token.MUL {
-				if fa, ok := x.X.(*ssa.FieldAddr); ok && fieldName(fa.X.Type(), fa.Field) == "Value" {
-					if fa.X == a {
-						return "a.field"
+	// inside a same-package helper that Equal hands a or b to, the helper's parameter stands for that operand
+	sideOf := func(v ssa.Value) string { return "" }
+	sideIn := func(a, b ssa.Value) func(v ssa.Value) string {
+		return func(v ssa.Value) string {
+			switch x := v.(type) {
+			case *ssa.Call:
+				if calleeName(&x.Call) == getVal {
+					if x.Call.Args[0] == a {
+						return "a.getter"
 					}
-					if fa.X == b {
-						return "b.field"
+					if x.Call.Args[0] == b {
+						return "b.getter"
 					}
 				}
+			case *ssa.UnOp:
+				if x.Op == token.MUL {
+					if fa, ok := x.X.(*ssa.FieldAddr); ok && fieldName(fa.X.Type(), fa.Field) == "Value" {
+						if fa.X == a {
+							return "a.field"
+						}
+						if fa.X == b {
+							return "b.field"
+						}
+					}
+				}
 			}
+			return ""
 		}
-		return ""
 	}
+	sideOf = sideIn(a, b)
 	type arm struct {
 		T        types.Type
 		aAssert  *ssa.TypeAssert
 		bAsserts []*ssa.TypeAssert
 	}
 	arms := map[string]*arm{}
-	instrs(eq, func(in ssa.Instruction) {
-		ta, ok := in.(*ssa.TypeAssert)
-		if !ok {
-			return
-		}
-		side := sideOf(ta.X)
-		if side == "" {
-			return
-		}
+	sideOfTA := map[*ssa.TypeAssert]string{}
+	var scan func(f *ssa.Function, sd func(ssa.Value) string, d int)
+	collect := func(ta *ssa.TypeAssert, side string) {}
+	scan = func(f *ssa.Function, sd func(ssa.Value) string, d int) {
+		instrs(f, func(in ssa.Instruction) {
+			if ta, ok := in.(*ssa.TypeAssert); ok {
+				if side := sd(ta.X); side != "" {
+					sideOfTA[ta] = side
+					collect(ta, side)
+				}
+				return
+			}
+			call, ok := in.(*ssa.Call)
+			if !ok || d > 1 {
+				return
+			}
+			g := staticCallee(&call.Call)
+			if g == nil || g == eq || g.Blocks == nil || pkgPathOf(g) != pkgPathOf(eq) {
+				return
+			}
+			var ga, gb ssa.Value
+			for i, arg := range call.Call.Args {
+				if i >= len(g.Params) {
+					break
+				}
+				switch sd2 := arg; {
+				case sd2 == a || (f != eq && sd(arg) == "a"):
+					ga = g.Params[i]
+				case sd2 == b || (f != eq && sd(arg) == "b"):
+					gb = g.Params[i]
+				}
+			}
+			if ga != nil || gb != nil {
+				scan(g, sideIn(ga, gb), d+1)
+			}
+		})
+	}
+	collect = func(ta *ssa.TypeAssert, side string) {
 		k := types.TypeString(ta.AssertedType, shortQ)
 		if arms[k] == nil {
 			arms[k] = &arm{T: ta.AssertedType}
@@ -73,7 +107,8 @@ func equalArms(c *Ctx, rule string, totality bool) {
 		} else {
 			arms[k].bAsserts = append(arms[k].bAsserts, ta)
 		}
-	})
+	}
+	scan(eq, sideOf, 0)
 	var names []string
 	for k := range arms {
 		names = append(names, k)
@@ -90,7 +125,7 @@ func equalArms(c *Ctx, rule string, totality bool) {
 		okB := len(ar.bAsserts) > 0
 		how := ""
 		for _, bt := range ar.bAsserts {
-			s := sideOf(bt.X)
+			s := sideOfTA[bt]
 			how = s
 			if s != "b.getter" || !bt.CommaOk {
 				okB = false
@@ -327,6 +362,36 @@ func sameFieldEq(v ssa.Value, aT *ssa.TypeAssert, bTs []*ssa.TypeAssert) bool {
 					return true
 				}
 			}
+			// the asserted value handed back by a small helper: w, ok := helper(b) with helper returning the
+			// two results of the assertion
+			if ex, ok := r.(*ssa.Extract); ok && ex.Index == 0 {
+				if call, ok := ex.Tuple.(*ssa.Call); ok {
+					if g := staticCallee(&call.Call); g != nil && g.Blocks != nil {
+						all, n := true, 0
+						instrs(g, func(in ssa.Instruction) {
+							ret, isR := in.(*ssa.Return)
+							if !isR {
+								return
+							}
+							n++
+							okRet := false
+							if len(ret.Results) >= 1 {
+								if rex, ok := ret.Results[0].(*ssa.Extract); ok && rex.Index == 0 {
+									for _, bt := range bTs {
+										if rex.Tuple == ssa.Value(bt) {
+											okRet = true
+										}
+									}
+								}
+							}
+							if !okRet {
+								all = false
+							}
+						})
+						return all && n > 0
+					}
+				}
+			}
 			return false
 		}
 		return (isA(ra) && isB(rb)) || (isB(ra) && isA(rb))
@@ -380,8 +445,22 @@ func equalFuncOverLists(v ssa.Value, eq *ssa.Function, sideOf func(ssa.Value) st
 		return false
 	}
 	side := func(v ssa.Value) string {
-		if ta, ok := assertRoot(v).(*ssa.TypeAssert); ok {
+		r := assertRoot(v)
+		if ta, ok := r.(*ssa.TypeAssert); ok {
 			return sideOf(ta.X)
+		}
+		// the asserted wrapper obtained through a same-package helper that is handed a or b
+		if hc, ok := r.(*ssa.Call); ok {
+			if g := staticCallee(&hc.Call); g != nil && g.Blocks != nil && pkgPathOf(g) == pkgPathOf(eq) {
+				for _, arg := range hc.Call.Args {
+					switch arg {
+					case ssa.Value(param(eq, 0)):
+						return "a.helper"
+					case ssa.Value(param(eq, 1)):
+						return "b.helper"
+					}
+				}
+			}
 		}
 		return ""
 	}
